@@ -1,8 +1,8 @@
 #!/bin/sh
 # tools/runall.sh [tier]: runs every check claimed in MANIFEST.json (quick by default), one line per property
 cd "$(dirname "$0")/.."
-tier=${1:-quick}
+tier=${1:-quick}; L=$(pwd)/.run; mkdir -p $L
 for p in $(python3 -c "import json; print(' '.join(c['property_id'] for c in json.load(open('MANIFEST.json'))['checks']))"); do
-  ./check $p --tier $tier > /tmp/runall_$p.log 2>&1; rc=$?
-  echo "$p rc=$rc $(grep -E "^$p tier|^VIOLATION|FRAMEWORK" /tmp/runall_$p.log | cut -c1-190 | tr '\n' ' ')"
+  ./check $p --tier $tier > $L/runall_$p.log 2>&1; rc=$?
+  echo "$p rc=$rc $(grep -E "^$p tier|^VIOLATION|FRAMEWORK" $L/runall_$p.log | cut -c1-190 | tr '\n' ' ')"
 done
